@@ -111,7 +111,9 @@ def check(ctx, spec, t0):
     if ok and spec.get("extract"):
         from .extract import run_extract
         eok, eout = run_extract(ctx)
-        if not eok:
+        if not eok and spec.get("fallback") and "does not build" not in eout:
+            C.translator_fallback(ctx, "Extracted", eout, spec["fallback"])
+        elif not eok:
             ctx.violation("tie", "fact extractor failed on /repo's source (fails closed)", dict(output=eout[-3000:]),
                           found_input=False)
     # 2b. property-specific regeneration of proof inputs (e.g. other extracted fact files)
@@ -119,7 +121,10 @@ def check(ctx, spec, t0):
         try:
             spec["pre"](ctx, spec)
         except Exception as ex:
-            ctx.violation("tie", f"regeneration of proof inputs failed: {ex}", dict(error=str(ex)), found_input=False)
+            if spec.get("fallback") and spec.get("fallback_table") and "fails closed" in str(ex):
+                C.translator_fallback(ctx, spec["fallback_table"], str(ex), spec["fallback"])
+            else:
+                ctx.violation("tie", f"regeneration of proof inputs failed: {ex}", dict(error=str(ex)), found_input=False)
     # 3. theorems
     mods = spec.get("lean_modules", [])
     bok, bout = C.build_lean(mods + ["vdriver"], ctx.log)
@@ -204,6 +209,11 @@ def finish(ctx, spec, proof, t0):
         out_lines.append(f"VIOLATION property={ctx.prop} replay={path}{tail}")
         nviol += 1
     cov = dict(ctx.coverage)
+    if getattr(ctx, "fallbacks", None):
+        cov["translator_fallback"] = ctx.fallbacks
+        ctx.assumptions.append("this run: a translator could not read the restructured source of " +
+                               ", ".join(f["table"] for f in ctx.fallbacks) + "; theorems checked over the table of the "
+                               "unchanged tree, tie = the exhaustive correspondence named under coverage.translator_fallback")
     cov.update(obligations=proof["obligations"], discharged=proof["discharged"],
                checker_cmd="lake build " + " ".join(spec.get("lean_modules", [])) +
                            " && lake env lean <Props file> (#print axioms), source audit grep" +
